@@ -24,3 +24,103 @@ package types
 //@   ensures len(result) == 1 && result[0] == unbech32(msg.ID.Owner)
 
 //@ property C06 := (MsgCreateDeployment).GetSigners#*, (MsgDepositDeployment).GetSigners#*, (MsgUpdateDeployment).GetSigners#*, (MsgCloseDeployment).GetSigners#*, (MsgCloseGroup).GetSigners#*, (MsgPauseGroup).GetSigners#*, (MsgStartGroup).GetSigners#*
+
+// ---- C19: admission limits ---------------------------------------------------
+//@ import atypes "github.com/ovrclk/akash/types"
+//@ bind atypes.ResourceGroup => GroupSpec
+
+// per-unit bounds (validationConfig is the network-wide constant table)
+//@ spec okCPU(u: *atypes.CPU): bool = u != nil && validationConfig.MinUnitCPU <= u.Units.Val && u.Units.Val <= validationConfig.MaxUnitCPU
+//@ spec okMem(u: *atypes.Memory): bool = u != nil && validationConfig.MinUnitMemory <= u.Quantity.Val && u.Quantity.Val <= validationConfig.MaxUnitMemory
+//@ spec okSto(u: *atypes.Storage): bool = u != nil && validationConfig.MinUnitStorage <= u.Quantity.Val && u.Quantity.Val <= validationConfig.MaxUnitStorage
+//@ spec okUnits(ru: atypes.ResourceUnits): bool = okCPU(ru.CPU) && okMem(ru.Memory) && okSto(ru.Storage)
+//@ spec okCount(n: int): bool = validationConfig.MinUnitCount <= n && n <= validationConfig.MaxUnitCount
+
+//@ func validateCPU
+//@   ensures result1 == nil <==> okCPU(u)
+//@   ensures result1 == nil ==> result0 == u.Units.Val
+//@ func validateMemory
+//@   ensures result1 == nil <==> okMem(u)
+//@   ensures result1 == nil ==> result0 == u.Quantity.Val
+//@ func validateStorage
+//@   ensures result1 == nil <==> okSto(u)
+//@   ensures result1 == nil ==> result0 == u.Quantity.Val
+//@ func newLimits
+//@   ensures result.cpu == 0 && result.memory == 0 && result.storage == 0
+//@ func validateResourceUnit
+//@   ensures result1 == nil <==> okUnits(units)
+//@   ensures result1 == nil ==> result0.cpu == units.CPU.Units.Val && result0.memory == units.Memory.Quantity.Val && result0.storage == units.Storage.Quantity.Val
+//@ func validateResourceGroup
+//@   ensures result1 == nil <==> (okUnits(rg.Resources) && okCount(rg.Count))
+//@   ensures result1 == nil ==> result0.cpu == rg.Resources.CPU.Units.Val && result0.memory == rg.Resources.Memory.Quantity.Val && result0.storage == rg.Resources.Storage.Quantity.Val
+//@ func (*resourceLimits).add
+//@   modifies *u
+//@   ensures u.cpu == old(u.cpu) + rhs.cpu && u.memory == old(u.memory) + rhs.memory && u.storage == old(u.storage) + rhs.storage
+//@ func (*resourceLimits).mul
+//@   modifies *u
+//@   ensures u.cpu == old(u.cpu) * count && u.memory == old(u.memory) * count && u.storage == old(u.storage) * count
+
+//@ func (GroupSpec).GetName
+//@   ensures result == g.Name
+//@ func (GroupSpec).GetResources
+//@   ensures len(result) == len(g.Resources) && fresh(result)
+//@   ensures forall i: int :: 0 <= i && i < len(result) ==> result[i].Resources == g.Resources[i].Resources && result[i].Count == g.Resources[i].Count
+//@   loop 1 invariant 0 <= iter && iter <= len(g.Resources) && len(resources) == iter && cap(resources) == len(g.Resources) && fresh(resources)
+//@   loop 1 invariant forall i: int :: 0 <= i && i < iter ==> resources[i].Resources == g.Resources[i].Resources && resources[i].Count == g.Resources[i].Count
+
+// group totals: sum over the units of (per-unit amount x replica count), mathematical integers
+//@ spec totCPU(rs: []Resource, k: int): int = ite(k <= 0, 0, totCPU(rs, k-1) + rs[k-1].Resources.CPU.Units.Val * rs[k-1].Count)
+//@ spec totMem(rs: []Resource, k: int): int = ite(k <= 0, 0, totMem(rs, k-1) + rs[k-1].Resources.Memory.Quantity.Val * rs[k-1].Count)
+//@ spec totSto(rs: []Resource, k: int): int = ite(k <= 0, 0, totSto(rs, k-1) + rs[k-1].Resources.Storage.Quantity.Val * rs[k-1].Count)
+//@ spec okResources(g: GroupSpec): bool = g.Name != "" && len(g.Resources) <= validationConfig.MaxGroupUnits
+//@        && (forall i: int :: 0 <= i && i < len(g.Resources) ==> okUnits(g.Resources[i].Resources) && okCount(g.Resources[i].Count))
+//@        && 0 < totCPU(g.Resources, len(g.Resources)) && totCPU(g.Resources, len(g.Resources)) <= validationConfig.MaxGroupCPU
+//@        && 0 < totMem(g.Resources, len(g.Resources)) && totMem(g.Resources, len(g.Resources)) <= validationConfig.MaxGroupMemory
+//@        && 0 < totSto(g.Resources, len(g.Resources)) && totSto(g.Resources, len(g.Resources)) <= validationConfig.MaxGroupStorage
+
+//@ func ValidateResourceList
+//@   requires typeis(rlist, GroupSpec)
+//@   ensures result == nil ==> old(okResources(unbox(rlist, GroupSpec)))
+//@   ensures [d1] result == nil ==> old(unbox(rlist, GroupSpec).Name != "")
+//@   ensures [d2] result == nil ==> old(len(unbox(rlist, GroupSpec).Resources) <= validationConfig.MaxGroupUnits)
+//@   ensures [d3] result == nil ==> old(0 < totCPU(unbox(rlist, GroupSpec).Resources, len(unbox(rlist, GroupSpec).Resources)))
+//@   ensures [d4] result == nil ==> old(totCPU(unbox(rlist, GroupSpec).Resources, len(unbox(rlist, GroupSpec).Resources)) <= validationConfig.MaxGroupCPU)
+//@   ensures [d5] result == nil ==> old(forall i: int :: 0 <= i && i < len(unbox(rlist, GroupSpec).Resources) ==> okUnits(unbox(rlist, GroupSpec).Resources[i].Resources) && okCount(unbox(rlist, GroupSpec).Resources[i].Count))
+//@   loop 1 invariant 0 <= iter && iter <= len(units)
+//@   loop 1 invariant limits.cpu == old(totCPU(unbox(rlist, GroupSpec).Resources, iter)) && limits.memory == old(totMem(unbox(rlist, GroupSpec).Resources, iter)) && limits.storage == old(totSto(unbox(rlist, GroupSpec).Resources, iter))
+//@   loop 1 invariant forall i: int :: 0 <= i && i < iter ==> old(okUnits(unbox(rlist, GroupSpec).Resources[i].Resources) && okCount(unbox(rlist, GroupSpec).Resources[i].Count))
+
+//@ spec okPrice(r: Resource): bool = validDenom(r.Price.Denom) && r.Price.Amount >= 0 && validationConfig.MinUnitPrice <= r.Price.Amount && r.Price.Amount <= validationConfig.MaxUnitPrice
+//@ func (*Resource).GetPrice
+//@   requires m != nil
+//@   ensures result == m.Price
+//@ func (Resource).FullPrice
+//@   ensures result.Denom == r.Price.Denom && result.Amount == r.Price.Amount * r.Count
+//@ func validateUnitPricing
+//@   ensures result == nil <==> okPrice(rg)
+//@ func validateGroupPricing
+//@   ensures result == nil ==> (forall i: int :: 0 <= i && i < len(gspec.Resources) ==> okPrice(gspec.Resources[i]) && gspec.Resources[i].Price.Denom == "uakt")
+//@   loop 1 invariant 0 <= iter && iter <= len(gspec.Resources)
+//@   loop 1 invariant forall i: int :: 0 <= i && i < iter ==> okPrice(gspec.Resources[i]) && gspec.Resources[i].Price.Denom == "uakt"
+//@ func validateOrderBidDuration
+//@   ensures result == nil
+
+//@ spec okGroup(g: GroupSpec): bool = okResources(g) && (forall i: int :: 0 <= i && i < len(g.Resources) ==> okPrice(g.Resources[i]) && g.Resources[i].Price.Denom == "uakt")
+//@ func validateDeploymentGroup
+//@   ensures result == nil ==> okGroup(gspec)
+//@ func (GroupSpec).ValidateBasic
+//@   ensures result == nil ==> okGroup(g)
+
+// a stored deployment has between 1 and MaxGroupCount groups, all valid, with pairwise distinct names
+//@ func ValidateDeploymentGroups
+//@   ensures [count] result == nil ==> 1 <= len(gspecs) && len(gspecs) <= validationConfig.MaxGroupCount
+//@   ensures [valid] result == nil ==> (forall i: int :: 0 <= i && i < len(gspecs) ==> okGroup(gspecs[i]))
+//@   ensures [names] result == nil ==> (forall i: int, j: int :: 0 <= i && i < j && j < len(gspecs) ==> gspecs[i].Name != gspecs[j].Name)
+//@   loop 1 invariant 0 <= iter && iter <= len(gspecs) && names != nil && fresh(names)
+//@   loop 1 invariant forall i: int :: 0 <= i && i < iter ==> okGroup(gspecs[i]) && has(names, gspecs[i].Name)
+//@   loop 1 invariant forall i: int, j: int :: 0 <= i && i < j && j < iter ==> gspecs[i].Name != gspecs[j].Name
+
+//@ property C19 := (GroupSpec).GetName#*, (GroupSpec).GetResources#*, ValidateResourceList#*, (*Resource).GetPrice#*, (Resource).FullPrice#*, validateUnitPricing#*,
+//@                 validateGroupPricing#*, validateOrderBidDuration#*, validateDeploymentGroup#*, (GroupSpec).ValidateBasic#*, ValidateDeploymentGroups#*,
+//@                 validateCPU#*, validateMemory#*, validateStorage#*, newLimits#*, validateResourceUnit#*, validateResourceGroup#*,
+//@                 (*resourceLimits).add#*, (*resourceLimits).mul#*
